@@ -1590,7 +1590,7 @@ def _fmat(rows):
     return np.array([[float(x) for x in r] for r in rows], float)
 
 
-def rbchk_cases(rng, n):
+def rbchk_cases(rng, n, bad_safe=False):
     """data recovery matrices whose product with the rigid-body modes is known exactly: displacement rows of nodes
     (any local system, any output scale) recovered from one of the boundary grids, in any order, mixed with rotation
     rows, NULL rows, rows that act on modal DOF only and triples that are NOT rigid; everything a multiple of 1/400"""
@@ -1650,6 +1650,12 @@ def rbchk_cases(rng, n):
                     rows_b.append(row)
                     rows_q.append([Fr(int(rng.integers(-8, 9)), 4) for _ in range(nq)])
                 segs.append(dict(kind=kind, p=[float(p[i] - ref[i]) for i in range(3)], scale=float(sn / su)))
+                if kind == "bad" and bad_safe:
+                    # (a window that starts INSIDE a rejected triple could pair its last rows with the next node - the
+                    # documented "can be tricked" case; a NULL row behind it keeps the generator's intent decidable)
+                    rows_b.append([Fr(0)] * nb)
+                    rows_q.append([Fr(0)] * nq)
+                    segs.append(dict(kind="null"))
             elif kind == "null":
                 rows_b.append([Fr(0)] * nb)
                 rows_q.append([Fr(0)] * nq)
@@ -1774,6 +1780,54 @@ def parse_rbmult_report(txt):
                 elif rows:
                     break
             out["null"] = rows
+    return out
+
+
+def oracle_rbchk(c):
+    """rbmultchk on a data recovery matrix whose product with the rigid-body modes is known: every node is listed with its
+    location (relative to the reference of the modes) and its unit scale, rotation / NULL / modal rows and triples that are
+    not rigid are blank, the extreme coordinates are those of the nodes, the scale of the modes is printed"""
+    out = []
+    inp = {"kind": "rbchk", "case": {k: c[k] for k in ("drm_i", "rb_i", "den", "layout", "posb", "nb", "nc", "segs", "su")}}
+    try:
+        got, txt = run_rbchk(c, prtnull=True)
+    except Exception as e:  # noqa: BLE001
+        _fail(out, "rbmultchk-raises-" + type(e).__name__, "rbmultchk raises on a well-formed recovery matrix", inp, repr(e)[:200], "a report")
+        return out
+    rp = parse_rbmult_report(txt)
+    if rp["rbscale"] is None or abs(rp["rbscale"] - c["su"]) > 1e-12 * c["su"]:
+        _fail(out, "rbmultchk-rbscale", "printed scale of the rigid-body modes is not their unit scale", inp, rp["rbscale"], c["su"])
+    i, pts = 0, []
+    nr = len(c["drm_i"])
+    if sorted(rp["rows"]) != list(range(nr)):
+        _fail(out, "rbmultchk-table", "the result table (prtnullrows=True) does not list every row", inp, sorted(rp["rows"]), nr)
+        return out
+    for sg in c["segs"]:
+        ln = 3 if sg["kind"] in ("node", "bad", "rot") else 1
+        rows = [rp["rows"][i + t] for t in range(ln)]
+        if sg["kind"] == "node":
+            pts.append(sg["p"])
+            for r in rows:
+                if r["coords"] is None or not np.all(np.abs(np.array(r["coords"]) - np.array(sg["p"])) <= 0.6e-4) or \
+                        abs(r["scale"] - sg["scale"]) > 1e-5 * sg["scale"]:
+                    _fail(out, "rbmultchk-node-not-found", "rows of a node that follow the rigid-body pattern are not listed with the node's "
+                          "location and unit scale", inp, r, {"coords": sg["p"], "scale": sg["scale"]})
+                    break
+        else:
+            if any(r["coords"] is not None for r in rows):
+                fam = "rbmultchk-nonrigid-not-flagged" if sg["kind"] == "bad" else "rbmultchk-coordinates-on-" + sg["kind"] + "-row"
+                _fail(out, fam, "coordinates are printed on rows that are not the rigid-body displacement of a node (%s)" % sg["kind"], inp,
+                      [r["coords"] for r in rows], "blank")
+        i += ln
+    if pts:
+        want = np.concatenate([np.min(pts, axis=0), np.max(pts, axis=0)])
+        if rp["extremes"] in (None, "missing") or not np.all(np.abs(np.array(rp["extremes"]) - want) <= 0.6e-4):
+            _fail(out, "rbmultchk-extremes", "extreme coordinates are not those of the recovered nodes", inp, rp["extremes"], want.tolist())
+    elif rp["extremes"] is not None:
+        _fail(out, "rbmultchk-extremes", "extreme coordinates printed although no node was recovered", inp, rp["extremes"], None)
+    want_null = [i for i, r in enumerate(c["drm_i"]) if not any(r)]
+    if rp["null"] != want_null:
+        _fail(out, "rbmultchk-null-rows", "list of NULL rows", inp, rp["null"], want_null)
     return out
 
 
@@ -2719,6 +2773,25 @@ def oracle_cgmass(c):
     ok, e = _close(np.diag(pI), np.linalg.eigvalsh(J), 1e-8)
     if not ok:
         _fail(out, fam + "-principal", "principal inertias", inp, np.diag(pI).tolist(), np.linalg.eigvalsh(J).tolist())
+    if mx == my == mz:
+        # principal moments / radii are properties of the body: the same from any reference point and in any rotated frame
+        rs = np.random.default_rng([int(abs(m[3, 3]) * 1e6) % (2 ** 31), 5])
+        T = rb6(np.zeros(3), rs.uniform(-1, 1, 3) * max(np.abs(d).max(), 1.0))  # the old reference seen from a new one
+        R = rand_rot(rs)
+        T6 = np.block([[R, np.zeros((3, 3))], [np.zeros((3, 3)), R]])
+        for nm, m2 in (("reference-point", T.T @ m @ T), ("frame-rotation", T6.T @ m @ T6)):
+            m2 = (m2 + m2.T) / 2
+            with warnings.catch_warnings():
+                warnings.simplefilter("ignore")
+                _, _, _, pg2, _, pI2 = cb.cgmass(m2, all6=True)
+            sc = max(np.abs(J).max(), 1e-300) + mx * float(np.abs(d).max()) ** 2 * 1e-6
+            if not _close(np.diag(pI2), np.diag(pI), 1e-7, sc)[0] or not _close(pg2, pgyr, 1e-6, max(np.abs(pgyr).max(), 1e-300))[0]:
+                _fail(out, "cgmass-principal-" + nm, "principal inertias / radii of gyration change with the %s" % nm.replace("-", " "), inp,
+                      {"pI": np.diag(pI2).tolist(), "pgyr": np.asarray(pg2).tolist()}, {"pI": np.diag(pI).tolist(), "pgyr": np.asarray(pgyr).tolist()})
+        ok, e = _close(pgyr, np.sqrt(np.linalg.eigvalsh(J) / mx), 1e-8)
+        if not ok:
+            _fail(out, fam + "-principal-gyr", "principal radii of gyration are not sqrt(I_p / m)", inp, np.asarray(pgyr).tolist(),
+                  np.sqrt(np.linalg.eigvalsh(J) / mx).tolist())
     try:
         bad = m.copy()
         bad[0, 4] += 0.5 * max(np.abs(m).max(), 1.0)
@@ -3144,6 +3217,21 @@ def oracle_cbcheck(spec):
                 if not _close(resid, want_res, 1e-7, tot)[0]:
                     _fail(out, fam("effmass-total"), "effective mass + boundary residual != total mass", inp, resid.tolist(), want_res.tolist())
     oracle_report(out, fam, inp, case, tr, res, rp, free, geometry_ok)
+    if sum(spec["seed"]) % 3 == 0 and not spec.get("special"):
+        # options that must not change the returned matrices / tables: rb_norm (acts on rbs, rbe only), em_filt (printing
+        # only), n_freefree_modes (the free-free eigensolution only)
+        alt = dict(spec, rbnorm=(not tr["rbnorm"]), em_filt=(0 if spec.get("em_filt", 0) else 7.5))
+        try:
+            res2, _ = run_cbcheck(dict(case, spec=alt))
+            same = all(np.array_equal(np.asarray(getattr(res, nm)), np.asarray(getattr(res2, nm)))
+                       for nm in ("m", "k", "bset", "rbg", "cb_frq")) and \
+                np.array_equal(res.effmass.values, res2.effmass.values) and np.array_equal(res.effmass_percent.values, res2.effmass_percent.values) \
+                and res.uset.equals(res2.uset)
+            if not same:
+                _fail(out, "cbcheck-option-dependence", "m / k / bset / rbg / uset / effmass / effmass_percent / cb_frq change with rb_norm or em_filt",
+                      inp, "different", "identical")
+        except Exception as e:  # noqa: BLE001
+            _fail(out, "cbcheck-option-dependence", "cbcheck raises when only rb_norm / em_filt are changed", inp, repr(e)[:200], "a result")
     return out
 
 
@@ -3411,6 +3499,8 @@ def _run_kind(inp):
         return oracle_net(inp)
     if k == "rbmult":
         return oracle_rbmult(inp["seed"])
+    if k == "rbchk":
+        return oracle_rbchk(inp["case"])
     if k == "cbtf0":
         return oracle_cbtf0(inp)
     if k == "netdrm-reorder-probe":
@@ -3499,6 +3589,10 @@ def search(ctx, hints):
     for i in range(ctx.pick(60, 600)):
         fails += oracle_rbmult([ctx.seed, 55, i])
         ctx.count("oracle:rbmultchk")
+    rng = ctx.np_rng(14)
+    for c in rbchk_cases(rng, ctx.pick(80, 600), bad_safe=True):
+        fails += oracle_rbchk(c)
+        ctx.count("oracle:rbmultchk-exact")
     rng = ctx.np_rng(11)
     for c in cbtf0_cases(rng, ctx.pick(60, 600)):
         fails += oracle_cbtf0(c)
